@@ -219,6 +219,10 @@ def run(ctx):
     from .. import c09open
     if c09open.run_failed_opens(ctx):
         found = True
+    # ---- C2: the caller's file after a failing open (vlib/failopen.py, Sf.FailedOpen) ----
+    from .. import failopen
+    if failopen.run(ctx, "C09"):
+        found = True
     # ---- D: twin runs with refused calls of every class, judged on everything observable later (vlib/c09twin.py, Sf.AbsTwin) ----
     from .. import c09twin
     if c09twin.run(ctx, quick):
